@@ -19,6 +19,7 @@ Keys
   C11/no-merge-error/<path kind>/...                 a document although no reading defines one
   C11/merge-error-where-result-defined/<path kind>/<slug>/<policies>
   C11/inherited-from-root-merge/<C05 key tail>       the very same (old content, rhs, policy) fails as a plain root merge (C05)
+  C11/created-path-does-not-hold-rhs/<path kind>/<scalar|container>/<policies>
   C11/target-merge-differs/<path kind>/<target class><-<rhs class>/<policies>
                                                       the root merge of (old content, rhs) is right, the merge at the path is not
 """
@@ -181,6 +182,10 @@ def classify(case, res):
                 "merge error although the target exists (or can be created) and the policies define its merge", c)
     if status == "key-order":
         return ("%s/key-order/%s" % (PROP, res["order"]), "deep Hash merge at the target: " + str(res["order"]), c)
+    if not targets:
+        return ("%s/created-path-does-not-hold-rhs/%s/%s/%s" % (PROP, kind, "scalar" if rcls == "scalar" else "container", pol),
+                "the path matches nothing and can be created, but the result is not the left document plus the path holding "
+                "the right-hand document", c)
     return ("%s/target-merge-differs/%s/%s<-%s/%s" % (PROP, kind, tcls, rcls, pol),
             "the node at the path is not the policy merge of its old content with the right-hand document "
             "(the same merge at the root is right)", c)
